@@ -22,6 +22,8 @@ var (
 	vhOp     = 0
 	vhForm   = 0 // 0 var op var, 1 typed constant on the left, 2 typed constant on the right, 3/4 untyped constant left/right
 	vhCntInt = 0 // shifts: 1 = the count has type int (may be negative), 0 = uint
+	vhBranch = 0 // comparisons: 1 = used as a branch condition (the node has a false successor)
+	vhTook   = 0 // which successor the comparison closure returned: 1 true branch, 2 false branch
 )
 
 const (
@@ -259,6 +261,11 @@ func vh_C02_int() {
 		n.typ = t
 		n.kind = assignStmt
 	}
+	if isCmp && vhBranch == 1 {
+		n.tnext = &node{interp: i, exec: func(*frame) bltn { vhTook = 1; return nil }}
+		n.fnext = &node{interp: i, exec: func(*frame) bltn { vhTook = 2; return nil }}
+	}
+	vhTook = 0
 	f := newFrame(i.frame, 3, i.runid())
 	f.data[0] = vhCell(k, a)
 	f.data[1] = vhCell(ck, b)
@@ -304,7 +311,9 @@ func vh_C02_int() {
 				panicked = true
 			}
 		}()
-		n.exec(f)
+		if next := n.exec(f); next != nil {
+			next(f)
+		}
 	}()
 	// what compiled Go does
 	goPanics := false
@@ -331,6 +340,10 @@ func vh_C02_int() {
 	switch {
 	case isCmp:
 		vAssert("C02.value", res.Bool() == wb)
+		if vhBranch == 1 {
+			// as a branch condition: the true successor iff the comparison holds
+			vAssert("C02.branch", (vhTook == 1) == wb && vhTook != 0)
+		}
 	case vhSignedKind(k):
 		vAssert("C02.value", res.Int() == wi)
 	default:
@@ -340,7 +353,7 @@ func vh_C02_int() {
 
 var vhRegistry = map[string]func(){"vh_C02_int": vh_C02_int, "vv_models": vv_models, "vv_arith": vv_arith}
 
-var vhIntVars = map[string]*int{"vhKind": &vhKind, "vhOp": &vhOp, "vhForm": &vhForm, "vhCntInt": &vhCntInt}
+var vhIntVars = map[string]*int{"vhKind": &vhKind, "vhOp": &vhOp, "vhForm": &vhForm, "vhCntInt": &vhCntInt, "vhBranch": &vhBranch}
 
 var vhScenarios = map[string]func(map[string]string) bool{}
 
